@@ -163,6 +163,9 @@ def run(ctx: Ctx):
         for _ in range(ctx.size(8000, 150000)):
             nodes = gen.random_tree(rng, max_nodes=14, max_depth=5, comps=comps)
             imps = gen.random_imports(rng, nodes, 10)
+            # imports whose importee is not a module (a name below an existing module): never an edge, limit or not
+            for _ in range(rng.choice([0, 0, 1, 2])):
+                imps = imps + [(rng.choice(nodes), rng.choice(nodes) + "." + rng.choice(["zz", "zz.deep"]))]
             cases.append((nodes, imps, rng.randint(0, max(n.count(".") for n in nodes))))
         judge_graphs(ctx, s, cases)
         s.finish()
